@@ -210,6 +210,22 @@ thread_local! {
     pub static LAST_PANIC: std::cell::RefCell<String> = std::cell::RefCell::new(String::new());
 }
 
+/// Items of the run iterator with the running offset / rank / rank_zero after each item.
+pub fn run_iter_items(rv: &RLVector) -> Value {
+    let r = guarded(|| {
+        let mut it = rv.run_iter();
+        let mut v: Vec<Value> = Vec::new();
+        while let Some((s, l)) = it.next() {
+            v.push(json!([enc(s), enc(l), enc(it.offset()), enc(it.rank()), enc(it.rank_zero())]));
+            if v.len() > 5_000_000 { break; }
+        }
+        // The iterator is fused.
+        if it.next().is_some() { v.push(json!([-8, -8, -8, -8, -8])); }
+        Value::Array(v)
+    });
+    match r { Ok(v) => v, Err(msg) => { LAST_PANIC.with(|p| *p.borrow_mut() = msg); json!([[-8, -8, -8, -8, -8]]) } }
+}
+
 /// Queries whose answer arrays appear in a generated case, with the query they map to.
 /// `seli`/`sel0i` reuse the `sel`/`sel0` answers: the first item of the iterator is (r, select(r)).
 const CASE_OPS: [&str; 7] = ["get", "rank", "rank0", "sel", "sel0", "pred", "succ"];
@@ -238,6 +254,10 @@ pub fn replay_case(case: &Value, kinds: &[String], tally: &mut Tally) {
             for (op, exp) in [("len", len), ("ones", ones), ("zeros", len - ones)] {
                 let got = bv.query(op, 0);
                 tally.check(hkey(&[content_key, hstr(op)]), nontrivial, &|| ctx0(op, &json!(0)), &json!(exp), &got);
+            }
+            if let (AnyBv::RL(rv), Some(exp)) = (&bv, case.get("runiter")) {
+                let got = run_iter_items(rv);
+                tally.check(hkey(&[content_key, hstr("runiter")]), nontrivial, &|| ctx0("run_iter", &json!(0)), exp, &got);
             }
             for op in CASE_OPS.iter() {
                 let answers = match case.get(*op) { Some(a) => a.as_array().unwrap(), None => continue };
@@ -410,27 +430,17 @@ fn position_args(rng: &mut Rng, len: usize, runs: &Runs, extra: usize) -> Vec<us
     v
 }
 
-/// Counts select queries that land strictly inside a long superblock (offset > 0), by the documented rule.
-fn long_hits(len: usize, runs: &Runs, ranks: &[usize]) -> usize {
-    let count = ones_of(runs);
-    if count == 0 { return 0; }
-    let thr = bit_len(len).pow(4);
-    // position of the one of rank r
-    let pos_of = |r: usize| -> usize {
-        let mut rem = r;
-        for (s, l) in runs.iter() {
-            if rem < *l { return s + rem; }
-            rem -= l;
-        }
-        len
-    };
+/// Counts select queries that land strictly inside a long superblock (offset > 0), as observed in the
+/// real select support structure (bit 0 of the superblock's pointer is 0 for a long superblock).
+fn long_hits(bv: &AnyBv, which: usize, count: usize, ranks: &[usize]) -> usize {
+    let plain = match bv { AnyBv::Plain(b) => b, _ => return 0 };
+    let elems = crate::layout::to_elements(&crate::layout::to_bytes(plain));
+    let l = crate::layout::Cursor::new(&elems).bit();
+    let sel = match &l.opts[which] { Some(e) => crate::layout::select_layout(e), None => return 0 };
     let mut hits = 0;
     for r in ranks.iter() {
         if *r >= count || r % 4096 == 0 { continue; }
-        let sb = r / 4096;
-        let start = pos_of(sb * 4096);
-        let limit = if (sb + 1) * 4096 < count { pos_of((sb + 1) * 4096) } else { len };
-        if limit - start >= thr { hits += 1; }
+        if sel.0.get(2 * (r / 4096) + 1) & 1 == 0 { hits += 1; }
     }
     hits
 }
@@ -452,7 +462,7 @@ pub fn record_object(out: &mut TraceOut, rng: &mut Rng, label: &str, kind: &str,
     let sel0 = select_args(rng, len - ones, extra);
     let huge: Vec<usize> = HUGE_TOKENS.iter().map(|t| t.1).collect();
     let mut emit = |op: &str, args: &Vec<usize>, with_huge: bool, limit: Option<usize>| {
-        let mut all: Vec<usize> = args.iter().copied().filter(|a| limit.map(|l| *a < l).unwrap_or(true)).collect();
+        let mut all: Vec<usize> = args.iter().copied().filter(|a| limit.map(|l| *a < l).unwrap_or(true) && (*a as u64) <= TLC_MAX).collect();
         if with_huge { all.extend(huge.iter().copied()); }
         for chunk in all.chunks(64) {
             let rs: Vec<Value> = chunk.iter().map(|a| bv.query(op, *a)).collect();
@@ -470,9 +480,18 @@ pub fn record_object(out: &mut TraceOut, rng: &mut Rng, label: &str, kind: &str,
     emit("sel0i", &sel0, true, None);
     emit("pred", &pos, true, None);
     emit("succ", &pos, true, None);
+    if let AnyBv::RL(rv) = &bv {
+        out.push(json!({"e": "runs", "items": run_iter_items(rv)}));
+    }
+    if let AnyBv::Sparse(sv) = &bv {
+        let elems = crate::layout::to_elements(&crate::layout::to_bytes(sv));
+        let (_, _, low) = crate::layout::sparse_layout(&elems);
+        let key = format!("w{}", low.width);
+        stats["widths"][key] = json!(stats["widths"][format!("w{}", low.width)].as_u64().unwrap_or(0) + 1);
+    }
     if kind == "plain" {
-        let h1 = long_hits(len, runs, &sel);
-        let h0 = long_hits(len, &complement(len, runs), &sel0);
+        let h1 = long_hits(&bv, 1, ones, &sel);
+        let h0 = long_hits(&bv, 2, len - ones, &sel0);
         stats["long_one_hits"] = json!(stats["long_one_hits"].as_u64().unwrap_or(0) + h1 as u64);
         stats["long_zero_hits"] = json!(stats["long_zero_hits"].as_u64().unwrap_or(0) + h0 as u64);
     }
@@ -482,7 +501,7 @@ pub fn record_object(out: &mut TraceOut, rng: &mut Rng, label: &str, kind: &str,
 pub fn record_plain(seed: u64, thorough: bool, path: &str) -> Value {
     let mut rng = Rng::new(seed);
     let mut out = TraceOut::new();
-    let mut stats = json!({"objects": 0, "queries": 0});
+    let mut stats = json!({"objects": 0, "queries": 0, "widths": {}});
     let contents = plain_regimes(&mut rng, thorough);
     for (i, (label, len, runs)) in contents.iter().enumerate() {
         // All routes on the small ones; rotate routes on the big ones.
@@ -499,4 +518,144 @@ pub fn record_plain(seed: u64, thorough: bool, path: &str) -> Value {
     stats["events"] = json!(out.lines.len());
     stats["sample"] = serde_json::from_str(&out.lines[out.lines.len().min(2) - 1]).unwrap();
     stats
+}
+
+//-----------------------------------------------------------------------------
+// Sparse and run-length recorders (universes below 2^31; larger ones are in the U64 traces).
+
+fn distinct_positions(rng: &mut Rng, n: usize, m: usize) -> Runs {
+    let mut set = std::collections::BTreeSet::new();
+    while set.len() < m.min(n) { set.insert(rng.below(n)); }
+    normalize(n, set.into_iter().map(|p| (p, 1)).collect())
+}
+
+/// Contents aimed at the parameter regimes of the Elias-Fano vector (DESIGN C02: E1..E4).
+pub fn sparse_regimes(rng: &mut Rng, thorough: bool) -> Vec<(String, usize, Runs)> {
+    let mut out: Vec<(String, usize, Runs)> = Vec::new();
+    // E1: sweep of the low-part width: n = m * 2^w / ln 2.
+    let widths: Vec<usize> = if thorough { (1..=22).collect() } else { vec![1, 2, 3, 5, 8, 11, 13, 16, 19, 22] };
+    for w in widths {
+        let m = if thorough { rng.range(150, 600) } else { rng.range(60, 160) };
+        let n = ((m as f64) * (1u64 << w) as f64 / std::f64::consts::LN_2) as usize;
+        let n = n.min((1usize << 31) - 8);
+        let mut runs = distinct_positions(rng, n, m - 2);
+        // E2: positions on bucket boundaries and at both ends of the universe.
+        let b = 1usize << w;
+        let k = rng.below(n / b + 1);
+        runs.extend([(0, 1), (n - 1, 1), ((k * b).min(n - 1), 1), ((k * b + 1).min(n - 1), 1), ((k * b).saturating_sub(1), 1)]);
+        out.push((format!("E1.w{}", w), n, normalize(n, runs)));
+    }
+    // E3: select_zero stress: more than 16 ones in adversarial layouts.
+    let n = rng.range(3000, 9000);
+    out.push(("E3.longruns".to_string(), n, clustered(rng, n, 40, 60)));
+    out.push(("E3.alternating".to_string(), 2001, normalize(2001, (0..1000).map(|i| (2 * i + 1, 1)).collect())));
+    out.push(("E3.onebucket".to_string(), 100000, normalize(100000, (0..40).map(|i| (51200 + i, 1)).collect())));
+    out.push(("E3.perbucket".to_string(), 6400, normalize(6400, (0..100).map(|i| (64 * i + (i % 7), 1)).collect())));
+    let mut runs: Runs = vec![(0, 300)];
+    runs.extend((0..30).map(|i| (1000 + 97 * i, 1 + i % 3)));
+    runs.push((7000, 500));
+    out.push(("E3.mixed".to_string(), 7500, normalize(7500, runs)));
+    // E4: empty and full.
+    for n in [0usize, 1, 64, 5000, if thorough { 1 << 24 } else { 1 << 20 }] {
+        out.push((format!("E4.empty{}", n), n, Vec::new()));
+    }
+    for n in [1usize, 2, 63, 64, 65, if thorough { 5000 } else { 1300 }] {
+        out.push((format!("E4.full{}", n), n, vec![(0, n)]));
+    }
+    // single bit at the first / last element
+    let n = rng.range(100000, 1 << 30);
+    out.push(("E4.first".to_string(), n, vec![(0, 1)]));
+    out.push(("E4.last".to_string(), n, vec![(n - 1, 1)]));
+    out
+}
+
+/// Contents aimed at the encoding regimes of the run-length vector (DESIGN C03: L1, L2, L4).
+pub fn rl_regimes(rng: &mut Rng, thorough: bool) -> Vec<(String, usize, Runs)> {
+    let mut out: Vec<(String, usize, Runs)> = Vec::new();
+    // L1: 1, 8, 9, 64, 500 blocks of short runs (about 16 runs of 2 + 2 code units per block).
+    let block_counts: Vec<usize> = if thorough { vec![1, 2, 8, 9, 10, 64, 65, 500] } else { vec![1, 8, 9, 10, 70] };
+    for blocks in block_counts {
+        let runs_wanted = blocks * 16 - rng.below(8);
+        let mut runs: Runs = Vec::new();
+        let mut pos = if rng.chance(1, 2) { 0 } else { rng.range(1, 50) };
+        for _ in 0..runs_wanted {
+            let l = rng.range(9, 60);
+            runs.push((pos, l));
+            pos += l + rng.range(8, 60);
+        }
+        let len = if rng.chance(1, 2) { pos - rng.range(8, 60) + 0 } else { pos + rng.below(100) };
+        let last = runs.last().unwrap();
+        let len = len.max(last.0 + last.1);
+        out.push((format!("L1.{}blocks", blocks), len, normalize(len, runs)));
+    }
+    // L2: values needing 4..10 code units: gaps and lengths 2^9 .. 2^29, blocks closed early.
+    for rep in 0..(if thorough { 6 } else { 2 }) {
+        let mut runs: Runs = Vec::new();
+        let mut pos = if rep % 2 == 0 { 0 } else { rng.range(1, 1 << 20) };
+        let budget = (1usize << 31) - 64;
+        loop {
+            let l = 1usize << rng.range(0, 27);
+            let l = l + rng.below(l);
+            let g = 1usize << rng.range(0, 27);
+            let g = g + rng.below(g);
+            if pos + l + g + 2 >= budget || runs.len() > 400 { break; }
+            runs.push((pos, l));
+            pos += l + g;
+        }
+        let len = if rep % 3 == 0 { let last = runs.last().unwrap(); last.0 + last.1 } else { pos };
+        out.push((format!("L2.{}", rep), len, normalize(len, runs)));
+    }
+    // L4: a run at position 0, no trailing zeros, trailing zeros, single runs, empty.
+    out.push(("L4.empty0".to_string(), 0, Vec::new()));
+    out.push(("L4.zeros".to_string(), 777, Vec::new()));
+    out.push(("L4.ones".to_string(), 777, vec![(0, 777)]));
+    out.push(("L4.start0".to_string(), 1000, vec![(0, 1), (5, 3), (999, 1)]));
+    out.push(("L4.trailing".to_string(), 1 << 30, vec![(3, 1 << 20)]));
+    // mixtures: dense clustered content as a plain vector would hold
+    let len = rng.range(2000, 20000);
+    out.push(("L6.clustered".to_string(), len, clustered(rng, len, 30, 30)));
+    let len = rng.range(2000, 6000);
+    out.push(("L6.dense".to_string(), len, dense_uniform(rng, len, 500)));
+    out
+}
+
+pub fn record_contents(kind: &str, contents: Vec<(String, usize, Runs)>, seed: u64, thorough: bool, path: &str) -> Value {
+    let mut rng = Rng::new(seed ^ 0x5151);
+    let mut out = TraceOut::new();
+    let mut stats = json!({"objects": 0, "queries": 0, "widths": {}});
+    let all_routes = routes_for(kind);
+    for (i, (label, len, runs)) in contents.iter().enumerate() {
+        let ones = ones_of(runs);
+        // All routes on small contents; two rotating routes on large ones. Conversions from a plain
+        // vector need len bits of memory, the bit-at-a-time routes need time linear in the ones.
+        let routes: Vec<&str> = all_routes.iter().copied().enumerate().filter(|(j, r)| {
+            let heavy_plain = r.contains("plain") && *len > (1 << 24);
+            let heavy_bits = (*r == "bits" || r.contains("sparse")) && ones > (1 << 22);
+            let heavy_sparse = r.contains("sparse") && *len > (1 << 24) && ones < 64;
+            if heavy_plain || heavy_bits || heavy_sparse { return false; }
+            if *len <= (1 << 16) && ones <= (1 << 14) { return true; }
+            *j == 0 || *j == 1 + i % (all_routes.len() - 1)
+        }).map(|(_, r)| r).collect();
+        for route in routes {
+            let extra = if thorough { 60 } else { 25 };
+            record_object(&mut out, &mut rng, label, kind, route, *len, runs, extra, &mut stats);
+            stats["objects"] = json!(stats["objects"].as_u64().unwrap() + 1);
+        }
+    }
+    out.write(path);
+    stats["events"] = json!(out.lines.len());
+    stats["sample"] = serde_json::from_str(&out.lines[1.min(out.lines.len() - 1)]).unwrap();
+    stats
+}
+
+pub fn record_sparse(seed: u64, thorough: bool, path: &str) -> Value {
+    let mut rng = Rng::new(seed);
+    let contents = sparse_regimes(&mut rng, thorough);
+    record_contents("sparse", contents, seed, thorough, path)
+}
+
+pub fn record_rl(seed: u64, thorough: bool, path: &str) -> Value {
+    let mut rng = Rng::new(seed);
+    let contents = rl_regimes(&mut rng, thorough);
+    record_contents("rl", contents, seed, thorough, path)
 }
